@@ -2,7 +2,10 @@ use crate::acme_proto::structs::{AccountResponse, Authorization, Directory, Orde
 use crate::endpoint::Endpoint;
 use crate::http;
 use acme_common::error::Error;
+#[cfg(not(feature = "breard_r_acmed_verif"))]
 use std::{thread, time};
+#[cfg(feature = "breard_r_acmed_verif")]
+use {crate::verif::thread, std::time};
 
 macro_rules! pool_object {
 	($obj_type: ty, $obj_name: expr, $endpoint: expr, $url: expr, $data_builder: expr, $break: expr) => {{
